@@ -1429,6 +1429,36 @@ Proof.
     rewrite Hstuck, En in G1. apply (f_equal (@length _)) in G1. cbn in G1. lia.
 Qed.
 
+(* ---- why [term_settle] lets the clone the root waits for run: head-of-line blocking.
+   Clone 1 has 16 commands pending and does not run process(); clone 2 was attached after it.
+   The root has taken Terminate off its queue and waits for room in clone 1's queue. Whatever
+   the root and clone 2 do from here - clone 2 has drained its queue - clone 2 does not get
+   Terminated: not before clone 1 takes a command off its queue or is dropped. *)
+Lemma run_from_fix cf s tr : (forall a, In a tr -> step cf s a = s) -> run_from cf s tr = s.
+Proof.
+  unfold run_from. induction tr as [|a tr IH]; cbn [fold_left]; intros H; [reflexivity|].
+  rewrite (H a (or_introl eq_refl)). apply IH. intros b Hb. apply H. right. exact Hb.
+Qed.
+
+Definition hol_churn : list action := [ASendSub 1; ARoot; ARoot; ARoot; ASendUnsub 1; ARoot; ARoot; ARoot].
+Definition hol_witness : list action :=
+  [AClone; ARoot; AClone; ARoot] ++ hol_churn ++ hol_churn ++ hol_churn ++ hol_churn ++ hol_churn ++ hol_churn ++ hol_churn ++ hol_churn
+  ++ [ASendTerm; ARoot; ARoot; ARoot] ++ repeat (ACloneStep 2) 16.
+
+Lemma terminate_head_of_line :
+  exists cf tr, let s := run cf tr in
+    term_started s = true /\ c_alive (clones s 2) = true /\ c_att (clones s 2) = true /\ c_q (clones s 2) = [] /\
+    length (c_q (clones s 1)) = 16%nat /\
+    forall tr2, (forall a, In a tr2 -> a = ARoot \/ a = ACloneStep 2) ->
+      c_term (clones (run_from cf s tr2) 2) = false.
+Proof.
+  exists (MkCfg 2 false), hol_witness. cbv zeta.
+  split; [vm_compute; reflexivity|]. split; [vm_compute; reflexivity|]. split; [vm_compute; reflexivity|].
+  split; [vm_compute; reflexivity|]. split; [vm_compute; reflexivity|].
+  intros tr2 H2. rewrite run_from_fix; [vm_compute; reflexivity|].
+  intros a Ha. destruct (H2 a Ha) as [->| ->]; vm_compute; reflexivity.
+Qed.
+
 (* ------- invariant C (cf_follow = false): a connected link is in the maps *)
 
 Definition is_susp_for (x : N) (c : cmd) : bool :=
